@@ -10,6 +10,9 @@ mod p02;
 mod p03;
 mod p04;
 mod p05;
+mod p06;
+mod p07;
+mod csg;
 
 use engine::*;
 use std::path::PathBuf;
@@ -22,6 +25,8 @@ macro_rules! for_prop {
             "C03" => $f::<p03::P>($($arg),*),
             "C04" => $f::<p04::P>($($arg),*),
             "C05" => $f::<p05::P>($($arg),*),
+            "C06" => $f::<p06::P>($($arg),*),
+            "C07" => $f::<p07::P>($($arg),*),
             other => {
                 eprintln!("unknown property {other}");
                 std::process::exit(2)
